@@ -20,6 +20,7 @@ Word(b, o) == FromLE(b, o)
 CStr(b, o) == LET z == Min({k \in o..Len(b) : k = Len(b) \/ b[k + 1] = 0}) IN SubSeq(b, o + 1, z)
 
 \* ---------------------------------------------------------------- material
+Pow256(k) == CASE k = 0 -> 1 [] k = 1 -> 256 [] k = 2 -> 65536 [] k = 3 -> 16777216
 \* which 2-byte slots of a colour table row are integers (0-based slot numbers); the rest are halves
 LegacyIntSlots == {11}
 DawntrailIntSlots == {24, 25, 27}
@@ -32,7 +33,8 @@ Mtrl(b) ==
       sSize == U16(b, 8)
       oStr == 16 + 4 * nTex + 4 * nUv + 4 * nCol
       oFlags == oStr + sSize
-      flags == U32n(b, oFlags)
+      \* the table flags are the first (up to four) bytes of the additional data, zero-extended
+      flags == FoldLeft(LAMBDA a, k : a + b[oFlags + k] * Pow256(k - 1), 0, [k \in 1..(IF addl < 4 THEN addl ELSE 4) |-> k])
       hasTable == (flags \div 4) % 2 = 1
       hasDye == (flags \div 8) % 2 = 1
       dims == (flags \div 16) % 256
